@@ -156,9 +156,15 @@ class P(Prop):
                     inp["comps"][-1] = ({"pin": [Fraction(0)] * n, "set": "from_output"} if twin["cls"] == "load"
                                         else {"status": [True] * n, "lsm": [Fraction(0)] * n, "pin": [Fraction(0)] * n})
             elif fam == "wrong_class":
-                idx = [i for i, d in enumerate(comps) if pg.kind_of(d["cls"]) in ("Source", "Storage", "PtiPto")]
-                i = rng.choice(idx)
-                comps[i]["cls"] = {"Source": "bad_source", "Storage": "bad_storage", "PtiPto": "bad_pti"}[pg.kind_of(comps[i]["cls"])]
+                loads_ = [j for j, d in enumerate(comps) if d["cls"] == "load"]
+                if loads_ and rng.random() < 0.4:
+                    # a plain component typed PTI/PTO system but declared a consumer: the role follows the component type
+                    comps[rng.choice(loads_)]["cls"] = "bad_pti_load"
+                    case["what"] = "pti-typed-consumer"
+                else:
+                    idx = [i for i, d in enumerate(comps) if pg.kind_of(d["cls"]) in ("Source", "Storage", "PtiPto")]
+                    i = rng.choice(idx)
+                    comps[i]["cls"] = {"Source": "bad_source", "Storage": "bad_storage", "PtiPto": "bad_pti"}[pg.kind_of(comps[i]["cls"])]
             elif fam == "rated":
                 idx = [i for i, d in enumerate(comps) if d["cls"] in ("load", "drive", "generator", "battery", "supercap")]
                 if idx:
